@@ -12,6 +12,8 @@ import z3
 
 PROD_LIMIT = 4096  # max monomials of an expanded product before going opaque
 ENUM_LIMIT = 22  # max joint support for bit-parallel enumeration
+import os
+DEBUG = bool(os.environ.get("PYVC_DEBUG"))
 CONJ_EXPAND = 64  # conjunctions whose expansion could exceed this many monomials stay opaque gates
 
 ONE_M = frozenset()  # the empty monomial (constant 1)
@@ -71,6 +73,7 @@ class Ctx:
         self.trace = []  # (site, decision) for divergence detection
         self.zint_axioms = []
         self.poison = None
+        self.nonlin = set()  # atoms seen in a monomial of degree >= 2 (pivot selection heuristic only)
 
     def fresh(self, name):
         i = self.natoms
@@ -124,23 +127,35 @@ def pis_affine(p):
 
 def psubst(p, sub):
     """substitute atom -> poly for atoms in sub (sub values must not mention keys of sub)"""
-    if not sub:
+    if not sub or not p:
         return p
-    if not any(a in sub for m in p for a in m):
+    keys = sub.keys() if len(sub) > 1 else None
+    if keys is None:
+        (k0,) = sub
+        hits = [m for m in p if k0 in m]
+    else:
+        hits = [m for m in p if not m.isdisjoint(keys)]
+    if not hits:
         return p
-    out = ZERO
-    for m in p:
-        hit = [a for a in m if a in sub]
-        if not hit:
-            out = out ^ frozenset([m])
-            continue
-        term = frozenset([frozenset(a for a in m if a not in sub)])
-        for a in hit:
-            term = pmul(term, sub[a])
-            if term is None:
-                raise Undecided("substitution blow-up")
-        out = out ^ term
-    return out
+    out = p.difference(hits)
+    acc = {}
+    for m in hits:
+        if len(m) == 1:
+            (a,) = m
+            term = sub[a]
+        else:
+            term = frozenset([frozenset(a for a in m if a not in sub)])
+            for a in m:
+                if a in sub:
+                    term = pmul(term, sub[a])
+                    if term is None:
+                        raise Undecided("substitution blow-up")
+        for t in term:
+            if t in acc:
+                del acc[t]
+            else:
+                acc[t] = 1
+    return out ^ frozenset(acc)
 
 
 def gate_and(polys):
@@ -151,7 +166,16 @@ def gate_and(polys):
         a = C.fresh(f"g{C.natoms}")
         C.gates[a] = key
         C.gate_cache[key] = a
+        for q in polys:
+            note_nonlinear(q)
     return pvar(a)
+
+
+def note_nonlinear(p):
+    nl = C.nonlin
+    for m in p:
+        if len(m) > 1:
+            nl.update(m)
 
 
 def pand(p, q):
@@ -187,7 +211,22 @@ def pnot(p):
 
 def norm_under_pc(p):
     if C.subst:
-        p = psubst(p, C.subst)
+        try:
+            p = psubst(p, C.subst)
+        except Undecided as e:
+            # an eliminated atom occurs inside non-linear monomials of p and its solved form is long: un-eliminate it
+            # (its defining equality goes back to the residual constraints, where the XOR-aware solver handles it)
+            unpoison(e)
+            bad = set()
+            for m in p:
+                if len(m) > 1:
+                    bad.update(a for a in m if a in C.subst)
+            for a in bad:
+                rhs = C.subst.pop(a)
+                C.pc_other.append(pvar(a) ^ rhs ^ ONE)
+                C.nonlin.add(a)
+            C.pc_hash = hash((C.pc_hash, "depivot", tuple(sorted(bad))))
+            p = psubst(p, C.subst)
     return p
 
 
@@ -428,6 +467,7 @@ def assume(p):
     """add constraint p == 1 to the path condition (p already normalised)"""
     C.pc.append(p)
     C.pc_hash = hash((C.pc_hash, p))
+    note_nonlinear(p)
     if p == ONE:
         return
     if not p:
@@ -440,7 +480,9 @@ def assume(p):
         return
     if pis_affine(q):
         # pick pivot: any atom of q that is not a gate if possible
-        atoms = sorted(patoms(q), key=lambda a: (a in C.gates, -a))
+        # ... and, among those, one that is not known to occur in a non-linear monomial anywhere (substituting such an
+        # atom multiplies polynomials); single-atom facts (a = const) are harmless whatever the atom
+        atoms = sorted(patoms(q), key=lambda a: (a in C.gates, len(q) > 2 and a in C.nonlin, -a))
         piv = atoms[0]
         if piv in C.gates:  # only opaque atoms: keep the fact together with the gate definition
             C.pc_other.append(p)
@@ -516,75 +558,187 @@ def _gauss_add(sub, p):
 
 
 def xor_solve(cons, want_model=False):
-    """exact procedure for: affine equalities, conjunction gates of affine forms (=1) and their negations
-    (disjunctions of affine disequalities). Returns None when some constraint is outside this fragment."""
-    eqs, disj, others = [], [], []
+    """Exact procedure for the fragment that dominates this code base: constraints that are GF(2)-affine in most atoms
+    (set L: atoms that never occur in a monomial of degree >= 2) and arbitrary in a small set S of atoms (enum folding,
+    range restrictions, table look-ups on a few bits).  Accepted constraint shapes: polynomials without opaque atoms
+    (must be 1), conjunction gates asserted true (all conjuncts 1) or false (some conjunct 0).
+    Gaussian elimination pivots only on L-atoms (substitution is then linear: no products, no blow-up); what remains
+    are constraints over S alone, decided by bit-parallel enumeration of the <= 2^16 assignments of S; disjunctions by
+    depth-first choice.  Returns None when a constraint is outside the fragment (opaque arithmetic atoms, |S| > 16)."""
+    eqs, disj = [], []
+    gates = C.gates
     for c in cons:
-        if pis_affine(c) and not (patoms(c) & set(C.gates)):
-            eqs.append(c)
+        lg = as_linear_gate(c, affine_only=False)
+        if lg is not None:
+            neg, qs = lg
+            if neg:
+                disj.append(qs)
+            else:
+                eqs.extend(qs)
             continue
-        lg = as_linear_gate(c)
-        if lg is None:
-            others.append(c)
-            continue
-        neg, qs = lg
-        if neg:
-            disj.append(qs)
-        else:
-            eqs.extend(qs)
-    if others:
-        # a few small non-linear constraints (range restrictions of enum-valued inputs ...): split on their atoms
-        atoms = set()
-        for c in others:
-            atoms |= patoms(c)
-        if (atoms & set(C.gates)) or len(atoms) > 12:
+        if any(a in gates for m in c for a in m):
+            if DEBUG:
+                print("xor_solve: opaque atom in constraint", [(a, gates[a][0]) for m in c for a in m if a in gates][:4], len(c))
             return None
-        atoms = sorted(atoms)
-        for x in range(1 << len(atoms)):
-            env = {a: (x >> i) & 1 for i, a in enumerate(atoms)}
-            if not all(peval(c, dict(env)) for c in others):
-                continue
-            fixed = [pvar(a) if v else pvar(a) ^ ONE for a, v in env.items()]
-            r = _xor_linear(eqs + fixed, disj, want_model)
-            if r[0] == "sat":
-                return r
-        return "unsat", None
-    return _xor_linear(eqs, disj, want_model)
+        eqs.append(c)
+    nonlin = set()
+    for q in itertools.chain(eqs, *disj):
+        for m in q:
+            if len(m) > 1:
+                nonlin |= m
+    if len(nonlin) > 40:
+        if DEBUG:
+            print("xor_solve: |S| =", len(nonlin), [C.names[a] for a in sorted(nonlin)])
+            for q in itertools.chain(eqs, *disj):
+                nl = set()
+                for m in q:
+                    if len(m) > 1:
+                        nl |= m
+                if nl:
+                    print("    nonlinear constraint: monomials", len(q), "atoms", sorted(C.names[a] for a in nl))
+        return None
+    S = sorted(nonlin)
 
+    def subst_lin(p, sub):
+        hit = [a for m in p if len(m) == 1 for a in m if a in sub]
+        for a in hit:
+            p = p ^ frozenset([frozenset([a])]) ^ sub[a]
+        return p
 
-def _xor_linear(eqs, disj, want_model):
-    sub = {}
-    for e in eqs:
-        if not _gauss_add(sub, e):
-            return "unsat", None
+    class TooBig(Exception):
+        pass
 
-    def dfs(i, sub):
+    def components(resid):
+        """connected components of the residual constraints (shared atoms); satisfiable iff each component is"""
+        comps = []  # list of (atomset, [polys])
+        for q in resid:
+            at = atoms_cache.get(q)
+            if at is None:
+                at = atoms_cache[q] = patoms(q)
+            merged = (set(at), [q])
+            rest = []
+            for c in comps:
+                if c[0] & merged[0]:
+                    merged = (merged[0] | c[0], merged[1] + c[1])
+                else:
+                    rest.append(c)
+            comps = rest + [merged]
+        return comps
+
+    comp_cache = {}
+    tt_cache = {}
+    atoms_cache = {}
+
+    def comp_models(atoms, polys):
+        key = frozenset(polys)
+        hit = comp_cache.get(key)
+        if hit is not None:
+            return hit
+        sup = sorted(atoms)
+        if len(sup) > 20:
+            raise TooBig()
+        tsup = tuple(sup)
+        v = (1 << (1 << len(sup))) - 1
+        for q in sorted(polys, key=len):
+            t = tt_cache.get((q, tsup))
+            if t is None:
+                t = tt_eval([q], sup)[0][0]
+                tt_cache[(q, tsup)] = t
+            v &= t
+            if not v:
+                break
+        comp_cache[key] = (sup, v)
+        return sup, v
+
+    def resid_ok(resid):
+        if not resid:
+            return True
+        for atoms, polys in components(resid):
+            if not comp_models(atoms, polys)[1]:
+                return False
+        return True
+
+    def add(state, p):
+        """state = (sub, resid); add p == 1; False on contradiction"""
+        sub, resid = state
+        p = subst_lin(p, sub)
+        if p == ONE:
+            return True
+        if not p:
+            return False
+        piv = None
+        for m in p:
+            if len(m) == 1:
+                (a,) = m
+                if a not in nonlin:
+                    piv = a if piv is None or a > piv else piv
+        if piv is None:
+            resid.append(p)
+            return resid_ok(resid)
+        rhs = p ^ frozenset([frozenset([piv])]) ^ ONE  # p == 1  <=>  piv == rest ^ 1
+        pv = frozenset([frozenset([piv])])
+        for k, v in list(sub.items()):
+            if frozenset([piv]) in v:
+                sub[k] = v ^ pv ^ rhs
+        sub[piv] = rhs
+        return True
+
+    disj.sort(key=len)
+
+    def dfs(i, state):
         if i == len(disj):
-            return sub
+            return state
+        # a disjunct that already holds under the current solved form satisfies the group without any choice
+        reduced = []
         for q in disj[i]:
-            s2 = dict(sub)
-            if _gauss_add(s2, q ^ ONE):  # q == 0
+            r = subst_lin(q, state[0])
+            if not r:
+                return dfs(i + 1, state)
+            if r != ONE:
+                reduced.append(r)
+        for q in reduced:
+            s2 = (dict(state[0]), list(state[1]))
+            if add(s2, q ^ ONE):  # q == 0
                 r = dfs(i + 1, s2)
                 if r is not None:
                     return r
         return None
 
-    r = dfs(0, sub)
+    state = ({}, [])
+    try:
+        for e in eqs:
+            if not add(state, e):
+                return "unsat", None
+        r = dfs(0, state)
+    except TooBig:
+        if DEBUG:
+            print("xor_solve: residual component over more than 20 atoms")
+        return None
+
     if r is None:
         return "unsat", None
     if not want_model:
         return "sat", None
+    sub, resid = r
     env = {}
-    for a in set().union(*[patoms(v) for v in r.values()] or [set()]):
+    for atoms, polys in components(resid):
+        sup, v = comp_models(atoms, polys)
+        j = (v & -v).bit_length() - 1
+        for i, a in enumerate(sup):
+            env[a] = (j >> i) & 1
+    for a in S:
         env.setdefault(a, 0)
-    for piv, rhs in r.items():
+    for a in set().union(*[patoms(v) for v in sub.values()] or [set()]):
+        env.setdefault(a, 0)
+    for piv, rhs in sub.items():
         env[piv] = peval(rhs, dict(env))
     return "sat", env
 
 
-def _gate_conjuncts(a, depth=0):
-    """conjuncts (normalised, affine over non-gate atoms) of the conjunction that atom `a` stands for, or None.
-    A plain atom stands for itself; an `and` gate for its conjuncts (nested conjunction gates are flattened)."""
+def _gate_conjuncts(a, depth=0, affine_only=True):
+    """conjuncts (normalised, free of opaque atoms; affine ones only unless affine_only=False) of the conjunction that
+    atom `a` stands for, or None.  A plain atom stands for itself; an `and` gate for its conjuncts (nested conjunction
+    gates are flattened)."""
     gate = C.gates.get(a)
     if gate is None:
         return [norm_under_pc(pvar(a))]
@@ -593,12 +747,12 @@ def _gate_conjuncts(a, depth=0):
     out = []
     for q in gate[1]:
         q = norm_under_pc(q)
-        if pis_affine(q) and not (patoms(q) & set(C.gates)):
+        if (pis_affine(q) or not affine_only) and not any(b in C.gates for m in q for b in m):
             out.append(q)
             continue
         if len(q) == 1:  # a monomial of atoms / gates: conjunction again
             for b in next(iter(q)):
-                sub = _gate_conjuncts(b, depth + 1)
+                sub = _gate_conjuncts(b, depth + 1, affine_only)
                 if sub is None:
                     return None
                 out.extend(sub)
@@ -607,7 +761,7 @@ def _gate_conjuncts(a, depth=0):
     return out
 
 
-def as_linear_gate(p):
+def as_linear_gate(p, affine_only=True):
     """p == M or M^1 for a single monomial M of atoms / conjunction gates whose conjuncts are affine over non-gate atoms
     under the pc -> (negated, conjuncts): p holds iff all conjuncts are 1 (negated: iff some conjunct is 0)"""
     core_p = p ^ ONE if ONE_M in p else p
@@ -618,7 +772,7 @@ def as_linear_gate(p):
         return None
     qs = []
     for a in m:
-        sub = _gate_conjuncts(a)
+        sub = _gate_conjuncts(a, 0, affine_only)
         if sub is None:
             return None
         qs.extend(sub)
